@@ -30,6 +30,8 @@ type loopInfo struct {
 	Spec    *LoopSpec
 	// recorded at header
 	decAtHeader *Term
+	merge       *ssa.BasicBlock
+	mergeDone   bool
 	headState   *State
 	phiVals     map[*ssa.Phi]Val
 }
@@ -110,6 +112,7 @@ func (r *FnRun) oblige(st *State, kind, detail string, goal *Term, pos token.Pos
 	name := fmt.Sprintf("%s:%s#%d", r.e.relName(r.root.fn), base, r.root.counters[base])
 	hyps := append([]*Term{}, r.root.facts...)
 	hyps = append(hyps, st.PC)
+	goal = r.e.simplifyUnder(st.PC, goal)
 	pieces := r.e.splitGoal(goal)
 	for i, pc := range pieces {
 		n := name
@@ -281,6 +284,7 @@ func (r *FnRun) execBody(st *State) {
 			cur = r.enterLoop(li, edges)
 		} else {
 			cur = r.joinBlock(b, edges)
+			r.loopExitAsserts(b, edges, cur)
 		}
 		if cur == nil {
 			continue
@@ -561,4 +565,128 @@ func describeInstr(ins ssa.Instruction) string {
 		s = v.Name() + " = " + s
 	}
 	return strings.TrimSpace(s)
+}
+
+// simplifyUnder: unit-propagates the literals of the path condition into t (ite conditions known on this path disappear).
+func (e *Engine) simplifyUnder(pc, t *Term) *Term {
+	tb := e.tb
+	m := map[*Term]*Term{}
+	var lits func(x *Term)
+	lits = func(x *Term) {
+		switch x.Op {
+		case "and":
+			for _, a := range x.Args {
+				lits(a)
+			}
+		case "not":
+			if x.Args[0].Op != "true" && x.Args[0].Op != "false" {
+				m[x.Args[0]] = tb.False()
+			}
+		case "true", "false":
+		default:
+			if x.Sort == BoolSort {
+				m[x] = tb.True()
+			}
+		}
+	}
+	lits(pc)
+	if len(m) == 0 {
+		return t
+	}
+	return tb.Subst(t, m)
+}
+
+// loopExitAsserts: block b is entered from inside loop L (and is not part of it): check L's exit assertions here.
+func (r *FnRun) loopExitAsserts(b *ssa.BasicBlock, edges []edge, st *State) {
+	if st == nil {
+		return
+	}
+	for _, li := range r.loops {
+		if li.Spec == nil || (len(li.Spec.Exit) == 0 && len(li.Spec.ExitUses) == 0) || li.Body[b] {
+			continue
+		}
+		if r.loopMergeBlock(li) != b {
+			continue
+		}
+		env := r.rootEnvFor(st)
+		// names: phis of this block, then the loop's header phis, then other source variables
+		env.inLoop = true
+		env.blockPhis = map[string]*ssa.Phi{}
+		for _, ins := range b.Instrs {
+			if phi, ok := ins.(*ssa.Phi); ok && phi.Comment != "" {
+				env.blockPhis[phi.Comment] = phi
+			}
+		}
+		for _, u := range li.Spec.ExitUses {
+			r.assume(st, env.useAxiom(u))
+		}
+		for i, cl := range li.Spec.Exit {
+			if !r.root.wantClause(cl) {
+				continue
+			}
+			g := env.EvalBool(cl.E)
+			r.oblige(st, "loop-exit", fmt.Sprintf("loop%d.%d", li.Ordinal, i+1), g, b.Instrs[0].Pos(), "loop postcondition: "+cl.Text, cl.Tags)
+			r.assume(st, g)
+		}
+	}
+}
+
+// loopMergeBlock: the first block (in execution order) outside loop li that every exit of the loop leads to.
+func (r *FnRun) loopMergeBlock(li *loopInfo) *ssa.BasicBlock {
+	if li.merge != nil || li.mergeDone {
+		return li.merge
+	}
+	li.mergeDone = true
+	var targets []*ssa.BasicBlock
+	seenT := map[*ssa.BasicBlock]bool{}
+	for b := range li.Body {
+		for _, s := range b.Succs {
+			if !li.Body[s] && !seenT[s] {
+				seenT[s] = true
+				targets = append(targets, s)
+			}
+		}
+	}
+	reach := func(from *ssa.BasicBlock) map[*ssa.BasicBlock]bool {
+		seen := map[*ssa.BasicBlock]bool{from: true}
+		stack := []*ssa.BasicBlock{from}
+		for len(stack) > 0 {
+			x := stack[len(stack)-1]
+			stack = stack[:len(stack)-1]
+			for _, s := range x.Succs {
+				if !seen[s] && !r.isBackEdge(x, s) {
+					seen[s] = true
+					stack = append(stack, s)
+				}
+			}
+		}
+		return seen
+	}
+	var sets []map[*ssa.BasicBlock]bool
+	for _, t := range targets {
+		sets = append(sets, reach(t))
+	}
+	for _, b := range r.blockOrder() {
+		if li.Body[b] {
+			continue
+		}
+		all := len(sets) > 0
+		for _, s := range sets {
+			if !s[b] {
+				all = false
+			}
+		}
+		// error exits (blocks ending in return) do not count as continuations unless they are the only ones
+		if all {
+			li.merge = b
+			return b
+		}
+	}
+	// no common continuation: fall back to the exit target reached from the header itself
+	for _, s := range li.Header.Succs {
+		if !li.Body[s] {
+			li.merge = s
+		}
+	}
+	return li.merge
 }
